@@ -35,7 +35,7 @@ import c04
 from tbf import walk, kids, strip, AnalysisBroken
 
 LEVEL = "other"
-TECHNIQUE = "shared-state / definite-assignment analysis of the kernel's scratch buffers over the ownership graph + level-scaling, position-code and leaf-centre rules over the clang AST"
+TECHNIQUE = "shared-state (ownership graph) and definite-assignment analysis of kernel scratch buffers + level-scaling, position-code, leaf-centre, strided-loop coverage, point-dependence (taint) and mutable-member rules over the clang AST"
 
 K = "FUnifKernel"
 
